@@ -255,8 +255,8 @@ class Ctx:
             except HarnessError:
                 raise
             if res is None or not res.get("violated"):
-                raise HarnessError("nondeterministic verdict: case %s violated in exploration but not when replayed alone (%s)"
-                                   % (json.dumps(case)[:400], res))
+                raise HarnessError("nondeterministic verdict: case %s violated in exploration (%s) but not when replayed alone (%s)"
+                                   % (json.dumps(case)[:400], str(what)[:1500], res))
             detail = res.get("detail")
         rdir = os.environ.get("VERIF_REPLAY_DIR", "replays")
         os.makedirs(os.path.join(VERIF, rdir), exist_ok=True)
